@@ -35,6 +35,7 @@ COMPONENTS = {'real': ['boltons.ioutils.SpooledBytesIO', 'boltons.ioutils.Spoole
               'stub': ['tempfile.TemporaryFile as seen by ioutils (simfs anonymous file with a seeded write-back size)',
                        'os.fstat for simulated descriptors', 'the rollover instant (harness calls rollover()/fileno())']}
 ASSUMPTIONS = ['reference = io.BytesIO() / io.StringIO() (lines end at \\n only)',
+               'read sizes go up to 2**20: a size beyond available memory raises MemoryError on any real (rolled-over) file because CPython pre-allocates the buffer -- a resource fault, not a behaviour of boltons',
                'relative seeks: bytes variant takes io.BytesIO offsets; SpooledStringIO.seek(k, SEEK_CUR) means k code points forward and seek(k, SEEK_END) k code points back from the end (its own documented semantics; io.StringIO only allows offset 0 there), the reference is moved to the same absolute position',
                'write() return values are compared between replicas only (the spooled classes return None like Python 2 files); every other listed call is compared with the io reference',
                'writes are issued only when the reference position is at the end of the data (appending writes); seeks stay within 0..len',
@@ -112,9 +113,9 @@ def gen_case(rng, tier):
             n = rng.choice([0, 1, 2, 3, 5, 9, 17]) if rng.random() < 0.9 else rng.randint(20, 60)
             ops.append(['write', _chunk(rng, text, n)])
         elif r < 0.42:
-            ops.append(['read', rng.choice([1, 2, 3, 5, 8, 100])])
+            ops.append(['read', rng.choice([1, 2, 3, 5, 8, 100, 1, 2, 3, 5, 8, 100, 0, 1 << 20])])
         elif r < 0.48:
-            ops.append(['read', -1])
+            ops.append(['read', rng.choice([-1, -1, 'm1'])])      # read() / read(-1)
         elif r < 0.58:
             ops.append(['readline'])
         elif r < 0.62:
@@ -227,6 +228,8 @@ def _do(f, op, text, ref_len):
             arg = items if op[2] == 'list' else (tuple(items) if op[2] == 'tuple' else (x for x in items))
             return ('ok', f.writelines(arg))
         if name == 'read':
+            if op[1] == 'm1':
+                return ('ok', f.read(-1))
             return ('ok', f.read(op[1]) if op[1] != -1 else f.read())
         if name == 'readline':
             return ('ok', f.readline())
